@@ -130,6 +130,8 @@ FAMILIES = {
     "many-call-sites": fam_many_call_sites, "hostile-pow": fam_hostile_pow, "hostile-shift": fam_hostile_shift,
     "hostile-var-pow": fam_hostile_var_pow, "long-string": fam_long_string, "deep-parens": fam_deep_parens, "string-repeat": fam_string_repeat,
 }
+# cycles longer than any fixed look-back window a cycle detector might use (round 3): termination only, no growth exponent
+EXTRA_SIZES = {"mutual-ring": [16, 24, 40], "call-chain": [], "cyclic-imports": [16]}
 CONSTANT_FAMILIES = {"hostile-pow", "hostile-shift", "hostile-var-pow"}      # size-independent: run once
 
 
@@ -164,7 +166,7 @@ def main():
     cases = []
     for fam in FAMILIES:
         for p2 in (False, True):
-            for n in ([1] if fam in CONSTANT_FAMILIES else sizes):
+            for n in ([1] if fam in CONSTANT_FAMILIES else sizes + [x for x in EXTRA_SIZES.get(fam, []) if x not in sizes]):
                 cases.append((fam, n, p2))
     results = {}
     for idx, res in runner.fork_map(run_case, cases, cpu_limit=budget, wall_limit=budget * 2 + 30):
